@@ -69,6 +69,20 @@ def gen_ops(r, backend, n, L, measure=True, preps=True, channels=True, dagger=0.
             if g != "Fourier" and r.random() < dagger:
                 o["dag"] = True
             out.append(o)
+        elif x < 0.46 and backend == "gaussian" and n > 1 and r.random() < 0.5:
+            # multi-mode operations that only exist as decompositions (compile time rebuilds them from the matrix every time)
+            k = r.randint(2, n)
+            ms = r.sample(range(n), k)
+            which = r.choice(["Interferometer", "Interferometer", "GaussianTransform", "Gaussian"])
+            o = {"op": which, "useed": r.randrange(1 << 20), "m": ms}
+            if which == "Interferometer" and r.random() < 0.4:
+                o["kw"] = {"mesh": r.choice(["rectangular", "triangular", "rectangular_symmetric"])}
+            if which == "Gaussian":
+                o["means"] = [rnd(r, -0.5, 0.5) for _ in range(2 * k)]
+            out.append(o)
+        elif x < 0.50 and backend == "bosonic":
+            # measurement-based squeezing; with avg=False it measures an ancilla (RNG draw, Result.ancillae_samples)
+            out.append({"op": "MSgate", "p": [rnd(r, -0.3, 0.3), rnd(r, 0, 3), rnd(r, 1.0, 2.0), rnd(r, 0.9, 1.0), r.random() < 0.5], "m": [r.randrange(n)]})
         elif x < 0.62 and n > 1:
             names = GATES2 + (FOCK_ONLY2 if backend == "fock" else [])
             g = r.choice(names)
